@@ -347,15 +347,14 @@ func (c *compiler) evalAccessIndex(left, index interface{}, node *ast.IndexExpre
 	rv := reflect.ValueOf(left)
 	switch rv.Kind() {
 	case reflect.Map:
-		mapKeyType := reflect.TypeOf(left).Key().Kind()
-		keyType := reflect.TypeOf(index).Kind()
-		if mapKeyType != reflect.Interface &&
-			keyType != mapKeyType {
-			err = fmt.Errorf("cannot use %v (%s constant) as %s value in map index", index, keyType.String(), mapKeyType.String())
+		mapKeyType := reflect.TypeOf(left).Key()
+		kv := reflect.ValueOf(index)
+		if !kv.IsValid() || !kv.Type().AssignableTo(mapKeyType) {
+			err = fmt.Errorf("cannot use %v (%s constant) as %s value in map index", index, kv.Kind().String(), mapKeyType.Kind().String())
 			return nil, err
 		}
 
-		val := rv.MapIndex(reflect.ValueOf(index))
+		val := rv.MapIndex(kv)
 		if !val.IsValid() {
 			return nil, nil
 		}
@@ -367,7 +366,7 @@ func (c *compiler) evalAccessIndex(left, index interface{}, node *ast.IndexExpre
 		}
 	case reflect.Array, reflect.Slice:
 		if i, ok := index.(int); ok {
-			if rv.Len()-1 < i {
+			if i < 0 || rv.Len()-1 < i {
 				err = fmt.Errorf("array index out of bounds, got index %d, while array size is %d", index, rv.Len())
 			} else {
 
